@@ -448,6 +448,10 @@ def check(prop_id: str, tier: str, verif_seed: int, jobs_n: int, max_runs: Optio
                     unknown_groups[gkey] = (rec, rule, message, key)
     exit_code = 0
     violation_lines = []
+    if len(unknown_groups) > 3:
+        print(f"  {len(unknown_groups)} distinct violation groups (first 3 minimised):")
+        for (rule, keyjson), (rec, _, message, _) in unknown_groups.items():
+            print(f"    - {rule} {keyjson} e.g. job {rec[0]}: {message[:160]}")
     for gkey, (rec, rule, message, key) in list(unknown_groups.items())[:3]:
         job = job_by_index[rec[0]]
         tape_vals = rec[11] or []
@@ -457,10 +461,11 @@ def check(prop_id: str, tier: str, verif_seed: int, jobs_n: int, max_runs: Optio
         sample = rec[9]
         labels: List[str] = []
         if out is not None:
-            for ov in out.violations:
-                if ov.rule == rule:
-                    v = ov
-                    break
+            same = [ov for ov in out.violations if ov.rule == rule and ov.key == key]
+            anyrule = [ov for ov in out.violations
+                       if ov.rule == rule and match_known(known, prop_id, ov.rule, ov.key) is None]
+            if same or anyrule:
+                v = (same or anyrule)[0]
             digest, sample, labels, tape_vals = out.digest, out.sample, out.labels, new_tape
         path = write_replay(prop_id, job[1], job[2], tape_vals, labels, v, digest, sample, sruns)
         print(f"  rule={v.rule} key={v.key}\n    {v.message}")
